@@ -89,6 +89,7 @@ def explore(body, input_syms, max_regions=64, timeout_ms=30000, label="coverage"
     seen_models = set()
     status = None
     while len(regions) < max_regions:
+        from_model_inexact = False
         if pending:
             env = pending.pop(0)
             # skip representatives that fall in a region already explored
@@ -113,10 +114,16 @@ def explore(body, input_syms, max_regions=64, timeout_ms=30000, label="coverage"
                 break
             seen_models.add(key)
             exact = reshadow(c, env)
+            # z3 prints algebraic numbers as decimal approximations: such a model value has a huge denominator
+            from_model_inexact = any(Fraction(env[v]).denominator > 10 ** 12 for v in vids)
         else:
             exact = reshadow(c, {v: c.shadow[v] for v in vids})
         reset_pc(c)
-        result = body(len(regions))
+        c.snap = None if exact and not from_model_inexact else Fraction(1, 10 ** 9)
+        try:
+            result = body(len(regions))
+        finally:
+            c.snap = None
         pcs = list(c.pc)
         # auxiliaries created during this run got their shadow from the run itself
         regions.append(Region(len(regions), {v: c.shadow[v] for v in vids}, pcs, result, exact))
